@@ -21,6 +21,7 @@ import common
 import c05_gen as g
 import c05_prog
 import c05_decl
+import c05_imports
 
 PYVER = (3, 12)
 
@@ -820,7 +821,7 @@ def run(res):
   res.assumptions = [
       "characters and Python's tokenizer/ast.parse are not modelled: the model works on tokens; the harness tokenises the real "
       "text with `tokenize` (dotted names and signed numbers merged) — exercised on every case",
-      "import bookkeeping (_Imports, collision renaming, aliases that are imports), ParamSpec/Concatenate/TypeVar defaults, typing.Self, "
+      "the import block is modelled in coq/Print/Imports.v (counts, every recording/decrement site, module guess, rendering) except collision renaming (_NameCollision), `from typing import X as Y`, aliased imports that are a prefix of a used name, names resolving inside the unit; ParamSpec/Concatenate/TypeVar defaults, typing.Self, "
       "NamedTuple/TypedDict forms, aliases in class bodies, alias expansion through Definitions.type_map and _maybe_resolve_alias, "
       "last-definition-wins for repeated names, setter/deleter decorators, the dotted Outer.Inner spelling of an annotated self "
       "in nested classes, the substring heuristics of the printer (`Concatenate` in args) are outside the model; they are exercised "
@@ -1150,6 +1151,19 @@ def run(res):
   res.obligation("correspondence:declarations-and-units-vs-printer-and-reader", n_mism == n_before,
                  "%d disagreements; first: %s" % (n_mism - n_before, " || ".join(mism[mism_before:])))
   phase["decl-units"] = round(time.time() - tp, 1); tp = time.time()
+
+  # ---------------- (6b) the import block against coq/Print/Imports.v ----------------
+  n_before = n_mism
+  mism_before = len(mism)
+  ri = common.rng(res.seed, "c05imp")
+  n_imp, n_imp_exact = c05_imports.check_imports(res, model_decl, impl, ids, ri, g.Gen(ri, ids), tvars, 3000 if thorough else 320,
+                                                 hist, report, unknown_violation, disagree, decl_fixed)
+  n_guard = c05_imports.check_reader_guard(res, model_decl, impl, ids, ri, g.Gen(ri, ids), tvars, 300 if thorough else 40,
+                                           hist, disagree, decl_fixed)
+  res.extra["import_block"] = {"cases": n_imp, "block_equal": n_imp_exact, "reader_guard_cases": n_guard}
+  res.obligation("correspondence:import-block-vs-printer-and-reader", n_mism == n_before and n_imp > 0,
+                 "%d disagreements in %d units; first: %s" % (n_mism - n_before, n_imp, " || ".join(mism[mism_before:])))
+  phase["import-block"] = round(time.time() - tp, 1); tp = time.time()
 
   # ---------------- (4) stubs emitted for generated programs ----------------
   from pytype import config, io, load_pytd, utils
